@@ -15,7 +15,7 @@ open ActixModel.Panic
 
 /-- `ChunkedState` (chunked.rs:19) -/
 inductive CState where
-  | size | sizeLws | extension | sizeLf | body | bodyCr | bodyLf | endCr | endLf | end_
+  | size | sizeDigit | sizeLws | extension | sizeLf | body | bodyCr | bodyLf | endCr | endLf | end_
   deriving Repr, DecidableEq, BEq
 
 /-- result of one `ChunkedState::step`: `Poll::Pending`, or `Ready(Ok(state))` with the
@@ -27,9 +27,11 @@ inductive Step where
 
 def invalid (msg : String) : Outcome Step := .err msg
 
-/-- `read_size` (chunked.rs:54–88).  `b - b'0'`, `b + 10 - b'a'` are `u8` arithmetic;
-`size.checked_mul(16)` is checked, `*size += rem as u64` is a plain `+=` on `u64`. -/
-def readSize (rdr : List Nat) (size : Nat) : Outcome Step :=
+/-- `read_size` (chunked.rs:58–98).  `b - b'0'`, `b + 10 - b'a'` are `u8` arithmetic;
+`size.checked_mul(16)` is checked, `*size += rem as u64` is a plain `+=` on `u64`.
+`first` = no digit of this chunk-size line has been read yet (state `Size`; `SizeDigit`
+otherwise): `chunk-size = 1*HEXDIG`, so BWS / `;` / CR before the first digit is an error. -/
+def readSize (rdr : List Nat) (size : Nat) (first : Bool) : Outcome Step :=
   match rdr with
   | [] => .ok .pending
   | b :: rest =>
@@ -47,15 +49,16 @@ def readSize (rdr : List Nat) (size : Nat) : Outcome Step :=
     | .panic s => .panic s
     | .err e => .err e
     | .ok none =>
-      if b = 9 ∨ b = 32 then .ok (.ready .sizeLws rest size none)
+      if first then invalid "Invalid chunk size line: Invalid Size"
+      else if b = 9 ∨ b = 32 then .ok (.ready .sizeLws rest size none)
       else if b = 59 then .ok (.ready .extension rest size none)
       else if b = 13 then .ok (.ready .sizeLf rest size none)
       else invalid "Invalid chunk size line: Invalid Size"
     | .ok (some rem) =>
       match checkedMul u64Max size 16 with
       | some n => do
-        let s ← uadd u64Max "chunked.rs:75 *size += rem" n rem
-        .ok (.ready .size rest s none)
+        let s ← uadd u64Max "chunked.rs:85 *size += rem" n rem
+        .ok (.ready .sizeDigit rest s none)
       | none => invalid "Invalid chunk size line: Size is too big"
 
 /-- `read_size_lws` (chunked.rs:90) -/
@@ -107,7 +110,8 @@ def expectByte (want : Nat) (next : CState) (msg : String) (rdr : List Nat) (siz
 /-- `ChunkedState::step` (chunked.rs:33) -/
 def step (st : CState) (rdr : List Nat) (size : Nat) : Outcome Step :=
   match st with
-  | .size => readSize rdr size
+  | .size => readSize rdr size true
+  | .sizeDigit => readSize rdr size false
   | .sizeLws => readSizeLws rdr size
   | .extension => readExtension rdr size
   | .sizeLf => readSizeLf rdr size
